@@ -47,11 +47,13 @@ impl Op for PipeOp {
 
     fn fallback(
         sq: &SubmissionQueue,
-        (mut fds, _): Self::Resources,
+        (mut fds, fd_kind): Self::Resources,
         flags: &mut Self::Args,
         err: io::Error,
     ) -> io::Result<Self::Output> {
-        if let Some(libc::EINVAL) = err.raw_os_error() {
+        // NOTE: the synchronous fallback can only create regular file
+        // descriptors, not direct descriptors.
+        if let (Some(libc::EINVAL), fd::Kind::File) = (err.raw_os_error(), fd_kind) {
             let flags = flags.0.cast_signed() | libc::O_CLOEXEC;
             let res = syscall!(pipe2(fds.as_mut_ptr(), flags))?;
             let resources = (fds, fd::Kind::File);
